@@ -130,10 +130,11 @@ package boltdb
 //@   requires c.Cursor != nil && jsonBucketInv(bucketOf(c.Cursor))
 //@   ensures [C18:bolt-cursor-beacon-carries-the-data-stored-under-its-own-round] err == nil ==> jsLabelled(bucketOf(c.Cursor), b)
 //@ func (*boltCursor).Seek(c, ctx, round) (b, err)
-//@   props C18
+//@   props C18 C11
 //@   requires c.Cursor != nil && jsonBucketInv(bucketOf(c.Cursor))
 //@   ensures [C18:bolt-cursor-beacon-carries-the-data-stored-under-its-own-round] err == nil ==> jsLabelled(bucketOf(c.Cursor), b)
 //@   ensures [C18:bolt-seek-of-a-stored-round-returns-that-round] err == nil && hasKey(bucketOf(c.Cursor), chain.be64(round)) ==> b.Round == round
+//@   ensures [C11,C18:bolt-seek-reports-nothing-stored-only-when-nothing-is-stored-at-or-after-the-round] b == nil && is(err, errors.ErrNoBeaconStored) ==> (forall r uint64 {chain.be64(r)} :: r >= round ==> !hasKey(bucketOf(c.Cursor), chain.be64(r)))
 
 //@ extern (*go.etcd.io/bbolt.Bucket).Cursor(bk) (c)
 //@   trusted bbolt: a cursor over that bucket; the receiver is dereferenced (Bucket.Cursor reads b.tx)
